@@ -81,6 +81,7 @@ pub fn reconcile(spec: &AirSpec, info: &TraceInfo) -> AirSpec {
             Rule::FibA => i + 1 < w && s.rules[i + 1] == Rule::FibB,
             Rule::FibB => i >= 1 && s.rules[i - 1] == Rule::FibA,
             Rule::Periodic { cycle, .. } => cycle >= 2 && cycle <= n && cycle.is_power_of_two(),
+            Rule::Periodic2 { cycle_a, cycle_b } => [cycle_a, cycle_b].iter().all(|c| *c >= 2 && *c <= n && c.is_power_of_two()),
             Rule::Rot { order } => order >= 2 && order <= n && order.is_power_of_two(),
             _ => true,
         };
@@ -146,6 +147,7 @@ pub fn degrees(spec: &AirSpec) -> (Vec<TransitionConstraintDegree>, Vec<Transiti
         .map(|r| match r {
             Rule::Pow { d, .. } => TransitionConstraintDegree::new((*d as usize).max(1)),
             Rule::Periodic { cycle, .. } => TransitionConstraintDegree::with_cycles(1, vec![*cycle]),
+            Rule::Periodic2 { cycle_a, cycle_b } => TransitionConstraintDegree::with_cycles(1, vec![*cycle_a, *cycle_b]),
             _ => TransitionConstraintDegree::new(1),
         })
         .collect();
@@ -205,6 +207,11 @@ impl<B: Fld> Air for SpecAir<B> {
                     let k = periodic_values[pk];
                     pk += 1;
                     next[i] - (cur[i] * k + E::from(B::mk(*c as u128)))
+                },
+                Rule::Periodic2 { .. } => {
+                    let (ka, kb) = (periodic_values[pk], periodic_values[pk + 1]);
+                    pk += 2;
+                    next[i] - (cur[i] * ka + kb)
                 },
                 Rule::Rot { order } => next[i] - E::from(B::get_root_of_unity(order.ilog2())) * cur[i],
                 Rule::FibA => next[i] - cur[i + 1],
